@@ -24,6 +24,8 @@ ENCS = ["utf-8", "iso-8859-2", "iso-8859-2-flat", "cp-1250", "cp-1251"]
 RULE = ("every network of the 40-member family x every string of the 11-item identifier menu at every identifier position, one at a time "
         "(each point id in all its roles station/target/coordinates-cluster/fixed/adjusted/constrained, the description, the extern attribute of the "
         "first observation of each type and of each coordinates cluster) x --cov-band in {-1,0,..,dim} x --angular {400,360} "
+        "+ the 35 escape-structure strings (all 25 ordered pairs of adjacent special characters, each special as first / last character) at the "
+        "description, one point id and one extern position of every [quick: every 4th] network with bands {-1,1}; "
         "[quick: id states with bands {-1,1} under 400 and -1 under 360, all bands x both units on the unmodified ids, tools on the unmodified ids and on the id states of the first and last point]; per execution: XML well-formed (expat) and "
         "holds exactly the given identifiers / description / extern; LocalNetworkAdjustmentResults::read_xml dump == python parse of the same file, "
         "field by field; python-parsed HTML, read_html, Octave .m (A*x-b, XYZ, C_xx, Indexes) and English text carry the same adjusted coordinates, "
@@ -167,7 +169,7 @@ def check_ids(cx, net, X, item, pos, run):
         for o, e in zip(X.obs, eo):
             ge = o["extern"]; ee = e[5]
             if (ge is None) != (ee is None) or (ge is not None and N.norm_ws(ge) != N.norm_ws(ee)):
-                cx.v("C12|xml-identifiers|extern|%s|%s" % (pc, item), "extern of %s: XML %r, given %r" % (o["tag"], ge, ee), run); break
+                cx.v("C12|xml-identifiers|extern|%s|%s" % (pc, N.sigclass(item, ("quot",)) if pc == "extern" else item), "extern of %s: XML %r, given %r" % (o["tag"], ge, ee), run); break
     ids_or = [o["id"] for o in X.orientations]
     for i in ids_or + [e["id"] for e in X.ellipses]:
         if i not in exp:
@@ -196,7 +198,7 @@ def check_reader(cx, D, dump, item, pos, run):
     if dump is None:
         cx.v("C12|reader|no-dump", "harness produced no dump", run); return
     if not dump["end"].startswith("ok"):
-        cx.v("C12|reader|read_xml-refuses-wellformed|%s|%s" % (pc, item), "read_xml: %s" % dump["end"], run); return
+        cx.v("C12|reader|read_xml-refuses-wellformed|%s|%s" % (pc, N.sigclass(item, ("quot",)) if pc == "extern" else item), "read_xml: %s" % dump["end"], run); return
     diffs = Q.compare_dump(D, dump["D"])
     cls = collections.OrderedDict()
     for c, d in diffs: cls.setdefault(c, d)
@@ -279,6 +281,7 @@ def check_html_py(cx, H, X, net, item, pos, degrees, run):
 def check_html_reader(cx, dump, X, net, item, pos, degrees, run):
     """read_html (gama's own HTML reader) against the XML of the same run"""
     pc = posclass(pos)
+    item = N.sigclass(item, ("amp", "lt", "quot", "gt", "apos"))    # read_html splits cells at every escaped character
     fr = "inconsistent-frame" if net.inconsistent else "consistent-frame"
     if dump is None or not dump["end"].startswith("ok"):
         cx.v("C12|html-reader|refuses|%s|%s" % (pc, item), "read_html: %s" % (dump["end"] if dump else "no dump"), run); return
@@ -360,8 +363,10 @@ def check_octave(cx, mtext, X, net, item, pos, run):
     try:
         O = Q.octave(mtext)
     except Q.OctaveError as e:
-        cx.v("C12|octave-syntax|%s|%s" % (pc, item), str(e), run); return
+        cx.v("C12|octave-syntax|%s|%s" % (pc, N.sigclass(item, ("apos",))), str(e), run); return
     adj = X.points["adjusted"]
+    if O.get("Points") != [p["id"] for p in adj] and any("'" in p["id"] for p in adj):
+        cx.v("C12|octave-syntax|%s|%s" % (pc, N.sigclass(item, ("apos",))), "undoubled apostrophes happen to parse, as another id: Points %r, XML adjusted %r" % (O.get("Points"), [p["id"] for p in adj]), run); return
     if O.get("Points") != [p["id"] for p in adj]:
         cx.v("C12|octave-vs-xml|point-id|%s|%s" % (pc, item), "Points %r, XML adjusted %r" % (O.get("Points"), [p["id"] for p in adj]), run); return
     xyz = O.get("XYZ", [])
@@ -483,7 +488,7 @@ def check_svg(cx, svg, net, item, pos, run):
     try:
         root = ET.fromstring(svg)
     except ET.ParseError as e:
-        cx.v("C12|svg-not-wellformed|%s-special-char|%s" % (pc, item), "SVG: %s" % e, run); return
+        cx.v("C12|svg-not-wellformed|%s-special-char|%s" % (pc, N.sigclass(item, ("amp", "lt"))), "SVG: %s" % e, run); return
     texts = set((t.text or "") for t in root.iter() if t.tag.endswith("text"))
     for p in net.points:
         if p.xy is not None and N.norm_id(p.id) not in texts and N.norm_id(p.id) not in set(x.strip() for x in texts):
@@ -517,7 +522,8 @@ def one_run(cx, net, gkf_text, band, ang, item, pos, tmp, exes, tag, keep=False,
             D, X = Q.xml_expect(xmlb)
         except ET.ParseError as e:
             cx.out["xml not well-formed"] += 1
-            cx.v("C12|xml-not-wellformed|%s-special-char|%s" % (posclass(pos), item), "adjustment XML is not well-formed: %s" % e, run)
+            bad = ("amp", "lt", "quot") if posclass(pos) == "extern" else ("amp", "lt")
+            cx.v("C12|xml-not-wellformed|%s-special-char|%s" % (posclass(pos), N.sigclass(item, bad)), "adjustment XML is not well-formed (%s = %r): %s" % (pos, N.MENU_D[item], e), run)
             # gama's reader must refuse it with an exception, not crash
             hrc, hso, hse = run_cmd([exes["xmlrt"], "xml", outs["xml"]])
             cx.cnt["transitions"] += 1; cx.cnt["reader runs"] += 1
@@ -529,11 +535,11 @@ def one_run(cx, net, gkf_text, band, ang, item, pos, tmp, exes, tag, keep=False,
             hb = rd(outs["html"])
             if hb is not None:
                 try: Q.html_tables(hb.decode("utf8", "surrogateescape"))
-                except ET.ParseError as e2: cx.v("C12|html-not-wellformed|%s-special-char|%s" % (pcs, item), "HTML: %s" % e2, run)
+                except ET.ParseError as e2: cx.v("C12|html-not-wellformed|%s-special-char|%s" % (pcs, N.sigclass(item, ("amp", "lt"))), "HTML: %s" % e2, run)
             mb = rd(outs["m"])
             if mb is not None:
                 try: Q.octave(mb.decode("utf8", "surrogateescape"))
-                except Q.OctaveError as e2: cx.v("C12|octave-syntax|%s|%s" % (pcs, item), str(e2), run)
+                except Q.OctaveError as e2: cx.v("C12|octave-syntax|%s|%s" % (pcs, N.sigclass(item, ("apos",))), str(e2), run)
             if full:
                 sb = rd(outs["svg"])
                 if sb is not None and any(p.xy is not None for p in net.points): check_svg(cx, sb, net, item, pos, run)
@@ -546,6 +552,8 @@ def one_run(cx, net, gkf_text, band, ang, item, pos, tmp, exes, tag, keep=False,
         hrc, hso, hse = run_cmd([exes["xmlrt"], "xml", outs["xml"], "html", outs["html"]])
         cx.cnt["transitions"] += 1; cx.cnt["reader runs"] += 1
         dd = Q.harness_dumps(hso.decode("utf8", "surrogateescape"))
+        html_markup = (net.description or "").startswith("<")   # html.cpp copies such a description verbatim ("description in HTML")
+        if html_markup: cx.out["description handed to the HTML output as markup (not judged)"] += 1
         if hrc != 0 or len(dd) != 2:
             cx.out["reader harness rc=%s" % hrc] += 1
             cx.v("C12|reader|harness-crash|%s|%s" % (posclass(pos), item), "rc=%s stderr=%s" % (hrc, hse[-400:]), run)
@@ -553,12 +561,12 @@ def one_run(cx, net, gkf_text, band, ang, item, pos, tmp, exes, tag, keep=False,
             cx.out["read_xml %s" % dd[0]["end"].split("\t")[0]] += 1
             cx.out["read_html %s" % dd[1]["end"].split("\t")[0]] += 1
             check_reader(cx, D, dd[0], item, pos, run)
-            check_html_reader(cx, dd[1], X, net, item, pos, degrees, run)
+            if not html_markup: check_html_reader(cx, dd[1], X, net, item, pos, degrees, run)
         htmlb = rd(outs["html"])
         try:
-            H = Q.html_tables(htmlb.decode("utf8", "surrogateescape"))
+            H = None if html_markup else Q.html_tables(htmlb.decode("utf8", "surrogateescape"))
         except (ET.ParseError, AttributeError) as e:
-            cx.v("C12|html-not-wellformed|%s-special-char|%s" % (posclass(pos), item), "HTML: %s" % e, run); H = None
+            cx.v("C12|html-not-wellformed|%s-special-char|%s" % (posclass(pos), N.sigclass(item, ("amp", "lt"))), "HTML (%s = %r): %s" % (pos, N.MENU_D[item], e), run); H = None
         if H is not None:
             try:
                 check_html_py(cx, H, X, net, item, pos, degrees, run)
@@ -840,6 +848,14 @@ def build_tasks(ck, exes):
                 ends = ("pt:" + e0.points[0].id, "pt:" + e0.points[-1].id)
                 tasks.append(dict(base, kind="id", net=ni, pos=pos, item=item, bandmode=("some" if quick else "all"),
                                   tools=((pos in ends) or not quick)))
+    # escape-structure items (adjacent pairs, first / last character)
+    for ni, (name, e0, e1) in enumerate(F):
+        if only and name not in only: continue
+        if quick and ni % 4 != 0: continue
+        ext = [p for p in N.positions(e0) if p.startswith("ext:")]
+        for pos in ["desc", "pt:" + e0.points[-1].id] + ext[:1]:
+            for item, _ in N.MENU_X:
+                tasks.append(dict(base, kind="id", net=ni, pos=pos, item=item, bandmode="some", tools=False))
     # text output: languages x encodings
     for ni, (name, e0, e1) in enumerate(F):
         if only and name not in only: continue
@@ -962,10 +978,11 @@ def main():
     ck.counters["distinct_nontrivial"] = ck.counters.get("states", 0)
     ck.count("tasks", done)
     ck.finish(RULE, assumptions=[
-        "40 networks with <= 5 points and <= 28 observations; identifier strings from the 11-item menu of lib/n12_nets.py (one position at a time)",
+        "40 networks with <= 5 points and <= 28 observations; identifier strings from the 11-item menu and the 35 escape-structure items of lib/n12_nets.py (one position at a time)",
         "tolerances: half a unit of the last printed digit of the less precise output + 1e-6 slack; exact equality for identifiers, indexes and counts",
         "HTML is compared in English only (read_html recognises English labels); SVG is only tested for well-formedness and point labels",
         "language x encoding pairs whose script has no code points in the target charset (ru, ua outside cp-1251; zh outside utf-8) are executed but only a normal exit and a non-empty file are demanded",
+        "a description whose first character is '<' is copied verbatim into the HTML output by design (html.cpp: 'description in HTML'); for that input the HTML is not judged",
         "menu item inner-blank (id 'P  7') is an extension of the stated menu: PointID keeps one inner blank by design",
         "reference parsers: python xml.etree (expat) and the small parsers of lib/n12_parse.py"])
 
